@@ -208,6 +208,27 @@ def run_lists(desc):
             out.violation(dict(case, name=diff[0], impl=diff[0] in got, want=diff[0] in want, ndiff=len(diff)),
                           size=sum(map(len, pi + pe)) * 10 + len(diff[0]), bucket=('lists', form, mode, bool(pi), diff[0] in got))
             return
+        # flags whose feature the pattern does not use are inert: one piece under SPLIT / BRACE is the pattern itself
+        if len(pi) == 1 and not pe and not nodir:
+            t = pi[0]
+            bare = t.replace('\\\\', '').replace('\\|', '').replace('\\{', '').replace('\\}', '')
+            inert = []
+            if '|' not in bare and '[' not in bare:
+                inert.append(('SPLIT', mod.SPLIT))
+            if '{' not in bare and '}' not in bare:
+                inert.append(('BRACE', mod.BRACE))
+            if not t.startswith('!') and not t.startswith('-'):
+                inert.append(('NEGATE', mod.NEGATE))
+                inert.append(('NEGATE|MINUSNEGATE', mod.NEGATE | mod.MINUSNEGATE))
+            base_acc = call_entry(mode, entry, names, t, fl)
+            for label, bit in inert:
+                acc2 = call_entry(mode, entry, names, t, fl | bit)
+                out.evaluations += len(names)
+                if acc2 != base_acc:
+                    dd = sorted(acc2 ^ base_acc)[0]
+                    out.violation(dict(case, problem='flag %s changes the meaning of a pattern that does not use its feature' % label, name=dd,
+                                       impl=dd in acc2, want=dd in base_acc), size=len(t) * 10, bucket=('inert', label, mode))
+                    return
         # translate list lengths
         if form == 0 and pi:
             t_inc, t_exc = mod.translate(pi, flags=fl_call, **({'exclude': pe} if pe else {}))
